@@ -379,8 +379,14 @@ func (lex* lexer) RecordPosition(n ast.Node, pos ast.Position) {
 
 func (lex *lexer) LastDocstring() string {
     // If we've had more than one line since we recorded
-    // the docstring, ignore it.
-    if lex.linesSinceDocstring > 1 {
+    // the docstring, ignore it. Newlines that follow the start of
+    // the current token (a keyword is matched together with the
+    // whitespace after it) do not count.
+    lines := lex.linesSinceDocstring
+    if lex.ts < lex.lineStart {
+        lines -= bytes.Count(lex.data[lex.ts:lex.lineStart], []byte{'\n'})
+    }
+    if lines > 1 {
         return ""
     }
 
